@@ -222,7 +222,7 @@ def main(argv):
     ctx = Ctx(pid, tier, seed, workers)
     try:
         coverage, violations = mod.run(ctx)
-    except Exception:
+    except BaseException:  # noqa - includes the watchdog: a hang outside a guarded call is a harness error, not a verdict
         traceback.print_exc()
         print('harness error in %s' % pid)
         ctx.close()
@@ -233,6 +233,10 @@ def main(argv):
     wall = time.time() - ctx.t0
 
     # --- triage violations ------------------------------------------------------------
+    skipped_after_hangs = [v for v in violations if 'hung repeatedly in this worker' in str(v.get('observed'))]
+    violations = [v for v in violations if 'hung repeatedly in this worker' not in str(v.get('observed'))]
+    if skipped_after_hangs:
+        ctx.cap('%d cases were not executed because the code under test hung repeatedly (per-execution watchdog)' % len(skipped_after_hangs))
     known = load_known()
     by_sig = {}
     for v in violations:
